@@ -8,7 +8,7 @@ PROP = "C08"
 DIR = None
 DIRS = ["A", "AB", "A/B", "A/B/C"]
 DIRS_X = DIRS + ["A/B/C/D", "E"]
-FMT = {"": ["xxh64"], "A": ["md5"], "AB": ["xxh64"], "A/B": ["sha1"], "A/B/C": ["c4"], "A/B/C/D": ["md5", "xxh3"], "E": ["md5"]}
+FMT = {".hid": ["md5"], ".hid/.in": ["sha1"], "..two": ["xxh64"], "": ["xxh64"], "A": ["md5"], "AB": ["xxh64"], "A/B": ["sha1"], "A/B/C": ["c4"], "A/B/C/D": ["md5", "xxh3"], "E": ["md5"]}
 
 
 def base_tree(dirs):
@@ -223,7 +223,8 @@ def main(tier, seed):
     plans = [dict(dirs=DIRS, max_cmds=4)] if tier == "quick" else [dict(dirs=DIRS, max_cmds=5), dict(dirs=DIRS_X, max_cmds=4, rich=True)]
     tot = {"states": 0, "transitions": 0}
     runs = []
-    plans.append(dict(dirs=["A", "E"], max_cmds=3, ignores=False))   # E: a nested root without any entry below it
+    plans.append(dict(dirs=["A", "E"], max_cmds=3, ignores=False))
+    plans.append(dict(dirs=[".hid", ".hid/.in", "..two"], max_cmds=3, ignores=False))   # nested roots whose names start with dots   # E: a nested root without any entry below it
     plans += [dict(dirs=DIRS, max_cmds=3 if tier == "quick" else 4, spell=sp) for sp in ("slash", "dot", "symlink")]   # root spelled 'dir/', '.'
     for pl in plans:
         meta = dict(alpha="c08", oracles=["c08"], cmds=0, observe=True, max_cmds=pl["max_cmds"], rich=pl.get("rich", False))
